@@ -645,6 +645,9 @@ def canonicalise(tree, rel):
                     visit(ch, prefix)
         visit(tree, '')
     tree._canon_renamed = renamed
+    # the substitutions above can expose shapes the first pass would have normalised (an `if` that now only holds another `if`)
+    tree = _Shape(dict((q, set(v.get('tests', ()))) for q, v in rc.items())).visit(tree)
+    ast.fix_missing_locations(tree)
     refs = reference_src().get(rel, {}) if not os.environ.get('VERIF_NO_TOWARDS') else {}
     moved = []
     seen_q = {}
@@ -659,7 +662,8 @@ def canonicalise(tree, rel):
                 for k, ch in enumerate(lst):
                     if isinstance(ch, (ast.FunctionDef, ast.AsyncFunctionDef, ast.ClassDef)):
                         q = prefix + ch.name
-                        walk_lists(ch, q + '.')
+                        if isinstance(ch, ast.ClassDef) or q not in refs:
+                            walk_lists(ch, q + '.')
                         if isinstance(ch, (ast.FunctionDef, ast.AsyncFunctionDef)) and q in refs:
                             # several definitions may share a name (property getter / setter): the reference lists them in source order
                             texts = refs[q]
@@ -676,11 +680,13 @@ def canonicalise(tree, rel):
                             else:
                                 ref_text = texts[0]
                             if cur_text != ref_text:
-                                new, d0, d1 = towards(ch, ref_text)
+                                new, d0, d1 = towards(ch, ref_text, nested=isinstance(node, (ast.FunctionDef, ast.AsyncFunctionDef)))
                                 if new is not ch:
                                     ast.fix_missing_locations(new)
                                     lst[k] = new
                                 moved.append((q, d0, d1))
+                            # closures of this function come after it: the enclosing function's locals have their reference names by then
+                            walk_lists(lst[k], q + '.')
                     elif isinstance(ch, (ast.If, ast.Try, ast.With, ast.For, ast.While, ast.ExceptHandler)):
                         walk_lists(ch, prefix)
         walk_lists(tree, '')
@@ -1172,9 +1178,12 @@ def _name_uses(f, name):
     return [n for n in ast.walk(f) if isinstance(n, ast.Name) and n.id == name]
 
 
-def _candidates(f, ref_assigns=(), ref_locals=(), changed=None):
-    for c in _candidates_all(f, ref_assigns, ref_locals, changed):
+def _candidates(f, ref_assigns=(), ref_locals=(), changed=None, ref_params=None):
+    for c in _candidates_all(f, ref_assigns, ref_locals, changed, ref_params):
         yield c
+
+
+_NEAR_CACHE = {}
 
 
 def _near(changed, *nodes):
@@ -1183,10 +1192,13 @@ def _near(changed, *nodes):
     for n in nodes:
         if n is None:
             continue
-        try:
-            t = ast.unparse(n)
-        except Exception:
-            return True
+        t = _NEAR_CACHE.get(id(n))
+        if t is None:
+            try:
+                t = ast.unparse(n)
+            except Exception:
+                return True
+            _NEAR_CACHE[id(n)] = t
         if isinstance(n, ast.stmt):
             if any(l.strip() in changed for l in t.splitlines()):
                 return True
@@ -1195,8 +1207,10 @@ def _near(changed, *nodes):
     return False
 
 
-def _candidates_all(f, ref_assigns=(), ref_locals=(), changed=None):
+def _candidates_all(f, ref_assigns=(), ref_locals=(), changed=None, ref_params=None):
     """yields (kind, apply) where apply mutates f in place; sites are addressed by position so that they can be replayed on a copy"""
+    _NEAR_CACHE.clear()
+    used_names = set(n.id for n in ast.walk(f) if isinstance(n, ast.Name)) | set(a.arg for a in ast.walk(f) if isinstance(a, ast.arg))
     blocks = _blocks(f)
     for bi, b in enumerate(blocks):
         for i, st in enumerate(b):
@@ -1283,7 +1297,7 @@ def _candidates_all(f, ref_assigns=(), ref_locals=(), changed=None):
     # a temporary the reference names and the current text has folded into its use
     bound = set(ordered_locals(f)) | set(params_of(f))
     for ri, (name, expr_text) in enumerate(ref_assigns):
-        if name not in bound and not _name_uses(f, name):
+        if name not in bound and name not in used_names:
             yield ('extract_ref_temp', ri, 0)
     # a single-assignment local whose value can be re-evaluated: each use may spell the value out
     own_ = own_nodes(f)
@@ -1300,8 +1314,21 @@ def _candidates_all(f, ref_assigns=(), ref_locals=(), changed=None):
     for c_ in cur_l:
         if c_ not in ref_locals and (changed is None or c_ in words):
             for r_ in ref_locals:
-                if r_ not in cur_l and not _name_uses(f, r_):
+                if r_ not in cur_l and r_ not in used_names:
                     yield ('rename', c_, r_)
+    # parameters of a nested function (a closure is not an interface): positional renaming towards the reference
+    if ref_params is not None:
+        cur_p = params_of(f)
+        if len(cur_p) == len(ref_params):
+            for c_, r_ in zip(cur_p, ref_params):
+                if c_ != r_ and r_ not in used_names and r_ not in cur_p:
+                    yield ('rename_param', c_, r_)
+    for k2, n in enumerate(own_):
+        if isinstance(n, (ast.If, ast.While, ast.IfExp)) and _near(changed, n.test):
+            t_ = n.test
+            inner_ = t_.operand if isinstance(t_, ast.UnaryOp) and isinstance(t_.op, ast.Not) else t_
+            if _len_cmp0(inner_) is not None:
+                yield ('len_zero', k2, 0)
     k = 0
     for n in own_:
         if isinstance(n, ast.Call) and len(n.args) == 1 and not n.keywords and isinstance(n.args[0], (ast.GeneratorExp, ast.ListComp)) and _consumes(n) and _near(changed, n):
@@ -1392,6 +1419,18 @@ def _next_after(f, block):
                                 return ob[k + 1]
                             return _next_after(f, ob)
                 return None
+    return None
+
+
+def _len_cmp0(e):
+    """len(X) == 0 -> ('empty', X);  len(X) != 0 / len(X) > 0 / len(X) >= 1 -> ('nonempty', X)"""
+    if isinstance(e, ast.Compare) and len(e.ops) == 1 and isinstance(e.left, ast.Call) and isinstance(e.left.func, ast.Name) and e.left.func.id == 'len' \
+            and len(e.left.args) == 1 and isinstance(e.comparators[0], ast.Constant):
+        c, op = e.comparators[0].value, e.ops[0]
+        if c == 0 and isinstance(op, ast.Eq):
+            return 'empty', e.left.args[0]
+        if (c == 0 and isinstance(op, (ast.NotEq, ast.Gt))) or (c == 1 and isinstance(op, ast.GtE)):
+            return 'nonempty', e.left.args[0]
     return None
 
 
@@ -1532,6 +1571,28 @@ def _apply(f, cand, ref_assigns=()):
         if a in params_of(f):
             return False
         _rename(f, {a: i})
+        return True
+    if kind == 'rename_param':
+        for x in ast.walk(f.args):
+            if isinstance(x, ast.arg) and x.arg == a:
+                x.arg = i
+        for x in own_nodes(f):
+            if isinstance(x, ast.Name) and x.id == a:
+                x.id = i
+        return True
+    if kind == 'len_zero':
+        n = own_nodes(f)[a]
+        t_ = n.test
+        neg = isinstance(t_, ast.UnaryOp) and isinstance(t_.op, ast.Not)
+        inner_ = t_.operand if neg else t_
+        lc = _len_cmp0(inner_)
+        if lc is not None:
+            # a sized container is falsy exactly when its length is 0
+            new_t = lc[1] if lc[0] == 'nonempty' else ast.UnaryOp(op=ast.Not(), operand=lc[1])
+        else:
+            new_t = ast.Compare(left=ast.Call(func=ast.Name(id='len', ctx=ast.Load()), args=[inner_], keywords=[]), ops=[ast.NotEq()], comparators=[ast.Constant(value=0)])
+            return False        # the reverse direction needs the value to be a sized container, which the syntax does not show
+        n.test = ast.UnaryOp(op=ast.Not(), operand=new_t) if neg else new_t
         return True
     if kind in ('mirror', 'demorgan', 'demorgan_rev', 'comp_kind'):
         n = own_nodes(f)[a]
@@ -1772,7 +1833,7 @@ def _changed_lines(lines, ref_lines):
 _DEADLINE = [None]
 
 
-def towards(f, ref_text, budget=300, seconds=2.0):
+def towards(f, ref_text, budget=300, seconds=2.0, nested=False):
     """best-first search over rewrite sequences; returns the closest function found (possibly f itself)"""
     import time as _time
     ref_lines = [l.strip() for l in ref_text.splitlines()[1:]]
@@ -1784,9 +1845,11 @@ def towards(f, ref_text, budget=300, seconds=2.0):
                 ref_assigns.append((n.targets[0].id, ast.unparse(n.value)))
         ref_locals = ordered_locals(rf)
         ref_tests = set(tests_of(rf))
+        ref_params = params_of(rf)
     except SyntaxError:
         ref_locals = []
         ref_tests = set()
+        ref_params = []
     start = _lines(f)
     d0 = _dist(start, ref_lines)
     if d0 == 0:
@@ -1800,13 +1863,16 @@ def towards(f, ref_text, budget=300, seconds=2.0):
     frontier = [(d0, 0, f, start)]
     tick = 0
     spent = 0
-    while frontier and spent < budget and best_d > 0:
+    expanded = 0
+    max_expand = max(6, min(60, 120000 // size))
+    while frontier and spent < budget and best_d > 0 and expanded < max_expand:
+        expanded += 1
         frontier.sort(key=lambda x: (x[0], x[1]))
         d, _t, cur, cur_lines = frontier.pop(0)
         if d > best_d + 6:
             break
         changed = _changed_lines(cur_lines, ref_lines)
-        for cand in list(_candidates(cur, ref_assigns, ref_locals, changed)):
+        for cand in list(_candidates(cur, ref_assigns, ref_locals, changed, ref_params if nested else None)):
             if spent >= budget:
                 break
             spent += 1
